@@ -17,10 +17,23 @@ def sized_binary(lengths=BOUNDARY_LENS, max_size=300):
     )
 
 
-def msg(max_size=300, big=False):
-    parts = [sized_binary(max_size=max_size)]
+HUGE_LENS = (65535, 65536, 65537, 131072, 65488, 8192, 4096)
+
+
+def huge_msg():
+    """Messages of 4 KiB .. 128 KiB whose length sits at a power-of-two multiple (streaming / chunking
+    boundaries); content is a cheap function of three drawn bytes so that Hypothesis does not have to
+    generate 64 KiB of entropy."""
+    return st.tuples(st.sampled_from(HUGE_LENS), st.binary(min_size=3, max_size=3)).map(
+        lambda t: (t[1] * (t[0] // 3 + 1))[:t[0] - 1] + bytes([t[1][0] ^ 0x5A]))
+
+
+def msg(max_size=300, big=False, huge_rate=24):
+    parts = [sized_binary(max_size=max_size)] * (huge_rate - 1 if huge_rate else 1)
     if big:
         parts.append(st.binary(min_size=2048, max_size=4096))
+    if huge_rate:
+        parts.append(huge_msg())
     return st.one_of(*parts)
 
 
